@@ -123,6 +123,15 @@ def parse_template(text):
 def find_unique(src, anchor, what):
     n = src.count(anchor)
     if n == 0:
+        # rustc's pretty printer breaks long item heads over several lines:
+        # retry with any run of white space matching any other
+        import re as _re
+        pat = r"\s+".join(_re.escape(w) for w in anchor.split())
+        ms = list(_re.finditer(pat, src))
+        if len(ms) == 1:
+            return ms[0].start()
+        if len(ms) > 1:
+            raise ExtractError(f"ambiguous anchor {anchor!r} in {what} ({len(ms)} matches)")
         raise ExtractError(f"lost anchor {anchor!r} in {what}")
     if n > 1:
         raise ExtractError(f"ambiguous anchor {anchor!r} in {what} ({n} matches)")
